@@ -386,11 +386,17 @@ def evaluate(prop, results, hangs, st, bound_check=False):
         st.families[r.family] = st.families.get(r.family, 0) + 1
         # gate: operand validity
         invalid = False
+        invalid_x = None
         for i, ch in enumerate(r.checks):
             if ch.startswith("operand A") or ch.startswith("operand B"):
                 v = r.checkres.get(i, "")
                 if v.startswith("fail"):
                     invalid = True
+            if ch.startswith("operandx A") or ch.startswith("operandx B"):
+                v = r.checkres.get(i, "")
+                invalid_x = bool(invalid_x) or v.startswith("fail")
+        # for the outcome of a call (C03): operands with empty interior rings count as valid
+        outcome_invalid = invalid if invalid_x is None else invalid_x
         if invalid:
             st.invalid_cases += 1
         for k, req in r.reqs.items():
@@ -408,7 +414,7 @@ def evaluate(prop, results, hangs, st, bound_check=False):
                 oc = " ".join(impl.split(" ")[:2])
             st.outcomes[oc] = st.outcomes.get(oc, 0) + 1
             # C03 / C10: outcome and event bound, judged on valid operands only (also where the model is out of range)
-            if bound_check and not invalid and kind in ("BOOL", "SUBDIV") and "@" not in req:
+            if bound_check and not outcome_invalid and kind in ("BOOL", "SUBDIV") and "@" not in req:
                 e = edges_in_req(req)
                 bound = 4 * e * e + 2 * e + 16
                 if impl.startswith("BUDGET"):
@@ -447,7 +453,7 @@ def evaluate(prop, results, hangs, st, bound_check=False):
             else:
                 st.agree += 1
         for i, ch in enumerate(r.checks):
-            if ch.startswith("operand A") or ch.startswith("operand B"):
+            if ch.startswith(("operand A", "operand B", "operandx A", "operandx B")):
                 continue
             st.checks += 1
             v = r.checkres.get(i)
@@ -607,7 +613,8 @@ def build_cases(prop, tier, rng):
         out.append(("c08", plans.plan_c08(rng, corpus_pairs(80) + gen_pairs(rng, fams_all, n) + gen_pairs(rng, ["g18", "g15", "g13", "g18"], n // 2)), False))
     elif prop == "C09":
         n = grow(60) if q else 1500
-        out.append(("c09", plans.plan_c09(rng, corpus_pairs(80) + gen_pairs(rng, fams_all, n)), False))
+        # (without g25: a far part placed relative to coordinates near 2^52 is not representable)
+        out.append(("c09", plans.plan_c09(rng, corpus_pairs(80) + gen_pairs(rng, [f for f in fams_all if f != "g25"], n)), False))
     elif prop == "C10":
         n = 150 if q else 4000
         pairs = structural_pairs() + gen_pairs(rng, ["g1", "g4f32", "g2", "g1", "g4f32", "g3", "g5f32", "g20", "g20"], n)
